@@ -353,8 +353,14 @@ class Sym:
             raise TypeError('sqrt of a symbolic value')
         return Sym.SQRT_HOOK(self)
 
+    RINT_HOOK = None
+
     def rint(self):
-        return self           # rounding is not modelled (identity): ordering ties at the rounding resolution are outside the claims
+        # np.round(x, d) on object arrays is rint(x * 10^d) / 10^d; a check that cares about ties at the rounding resolution installs a
+        # hook (C06: a fresh integer within 1/2 of the argument); otherwise rounding is the identity
+        if Sym.RINT_HOOK is not None:
+            return Sym.RINT_HOOK(self)
+        return self
 
     def __round__(self, n=None):
         return self
